@@ -39,6 +39,11 @@ type c08State struct {
 	cancelAt  int64 // logical time of the cancel (0: none)
 	doneSend  int
 	snd       chan<- int
+	// incremental indexes for the online checks (constant work per receive:
+	// some plans move tens of thousands of values)
+	invoked  map[int]bool // values whose send was invoked
+	recvCnt  map[int]int  // how often each value was received
+	recvFrom map[int]int  // how many values of each sender were received
 }
 
 func c08Plan(cap int, senders [][]int, receivers int) *driver.Plan {
@@ -181,7 +186,7 @@ func c08Enum(thorough bool) []*driver.Plan {
 
 func c08Build(e *driver.Env) {
 	p := e.Plan
-	st := &c08State{e: e}
+	st := &c08State{e: e, invoked: map[int]bool{}, recvCnt: map[int]int{}, recvFrom: map[int]int{}}
 	e.Data = st
 	rcv, snd := pipe.New[int](e.Ctx, p.Cap)
 	st.snd = snd
@@ -228,6 +233,7 @@ func c08Build(e *driver.Env) {
 				}
 				op := &qop{client: si, send: true, v: v, call: e.Tick()}
 				st.ops = append(st.ops, op)
+				st.invoked[v] = true
 				sel := simrt.Select(name+".send", false, simrt.Snd(snd, v), simrt.R(e.Abort))
 				if simrt.Free() || sel.I == 1 {
 					return
@@ -311,39 +317,25 @@ func c08Online(st *c08State, ri, v int) {
 	p := e.Plan
 	si := v / stride
 	idx := v % stride
-	if si < 0 || si >= len(p.Senders) || idx >= len(p.Senders[si]) || p.Senders[si][idx] != v {
+	if v < 0 || si >= len(p.Senders) || idx >= len(p.Senders[si]) || p.Senders[si][idx] != v {
 		e.Failf("C08.f", "received a value that was never sent", "received %d; senders %v", v, p.Senders)
 		return
 	}
 	// was its send at least invoked?
-	invoked := false
-	for _, op := range st.ops {
-		if op.send && op.v == v {
-			invoked = true
-		}
-	}
-	if !invoked {
+	if !st.invoked[v] {
 		e.Failf("C08.f", "received a value that was never sent", "received %d before any send of it was invoked", v)
 		return
 	}
-	n := 0
-	for _, x := range st.recvAll {
-		if x == v {
-			n++
-		}
-	}
+	st.recvCnt[v]++
+	n := st.recvCnt[v]
+	cnt := st.recvFrom[si] // values of this sender received before this one
+	st.recvFrom[si]++
 	if n > 1 {
 		e.Failf("C08.b", "a value was received twice", "value %d received %d times (received so far %v)", v, n, st.recvAll)
 		return
 	}
 	if p.Receivers == 1 {
 		// single receiver: values of one sender arrive in send order without gaps
-		cnt := 0
-		for _, x := range st.recvAll[:len(st.recvAll)-1] {
-			if x/stride == si {
-				cnt++
-			}
-		}
 		if idx != cnt {
 			e.Failf("C08.b", "values of one sender received out of send order or with a gap",
 				"received %d (index %d of sender %d) as that sender's value number %d; received so far %v", v, idx, si, cnt, st.recvAll)
